@@ -38,7 +38,20 @@ func enumPats(tier string, seed int) []patterns.Pat {
 func itoa(i int) string { return strconv.Itoa(i) }
 
 func isSystematic(p patterns.Pat) bool {
-	return p.Source == "shape:loopsucc" || p.Source == "shape:altprefix"
+	return p.Source == "shape:loopsucc" || p.Source == "shape:altprefix" || p.Source == "shape:succloop"
+}
+
+// mirrorPats: the head x predecessor x loop product (thinned in quick), used in full by the right-to-left
+// configurations and thinned further by the left-to-right ones.
+func mirrorPats(tier string, seed int, rtl bool) []patterns.Pat {
+	keep := 4
+	if !rtl {
+		keep = 8
+	}
+	if tier == "thorough" {
+		keep /= 4
+	}
+	return patterns.SuccLoop(keep, seed)
 }
 
 // systematicPats: the loop x successor x tail and alternation-prefix products (thinned in quick).
@@ -119,7 +132,7 @@ var c01OptionSets = []int{0, patterns.OptI, patterns.OptM, patterns.OptS, patter
 
 func buildSpecUnits(prop string, rtl bool) func(tier string, seed int) []Unit {
 	return func(tier string, seed int) []Unit {
-		ps := dedup(append(append(patterns.ShapePats(), systematicPats(tier, seed)...), enumPats(tier, seed)...))
+		ps := dedup(append(append(append(patterns.ShapePats(), systematicPats(tier, seed)...), mirrorPats(tier, seed, rtl)...), enumPats(tier, seed)...))
 		maxN := 4
 		if tier == "thorough" {
 			maxN = 5
@@ -180,7 +193,7 @@ func init() {
 	register(&propSpec{
 		ID: "C03",
 		Build: func(tier string, seed int) []Unit {
-			ps := dedup(append(append(patterns.ShapePats(), systematicPats(tier, seed)...), enumPats(tier, seed)...))
+			ps := dedup(append(append(append(patterns.ShapePats(), systematicPats(tier, seed)...), mirrorPats(tier, seed, true)...), enumPats(tier, seed)...))
 			maxN := 5
 			if tier == "thorough" {
 				maxN = 6
@@ -191,7 +204,12 @@ func init() {
 					o  int
 					co string
 				}{{0, ""}, {0, "g"}, {patterns.OptRTL, ""}, {patterns.OptI, ""}} {
-					if tier != "thorough" && cfg.o != 0 && ((i+seed)%4 != 0 || isSystematic(p)) {
+					if p.Source == "shape:succloop" && tier != "thorough" {
+						// the mirrored product: always right-to-left, every second one also left-to-right
+						if !(cfg.o == patterns.OptRTL || cfg.o == 0 && cfg.co == "" && (i+seed)%2 == 0) {
+							continue
+						}
+					} else if tier != "thorough" && cfg.o != 0 && ((i+seed)%4 != 0 || isSystematic(p)) {
 						continue
 					}
 					if tier != "thorough" && cfg.co != "" && isSystematic(p) && (i+seed)%6 != 0 {
@@ -201,7 +219,7 @@ func init() {
 						continue
 					}
 					mn := maxN
-					if p.Source == "enum" || p.Source == "shape:loopsucc" || p.Source == "shape:altprefix" {
+					if p.Source == "enum" || isSystematic(p) {
 						mn = maxN - 1 // generated patterns are at most 3-4 atoms wide; the shape library gets the extra rune
 					}
 					us = append(us, unitsFor("C03", "accel", p, cfg.o, cfg.co, mn, nil, false)...)
@@ -328,16 +346,20 @@ func init() {
 	register(&propSpec{
 		ID: "C05",
 		Build: func(tier string, seed int) []Unit {
-			ps := dedup(append(append(patterns.ShapesOf("autoatomic", "endbacktrack", "alternation", "coalesce", "bumpalong", "opcodes", "landmark", "case"), systematicPats(tier, seed)...), enumPats(tier, seed)...))
+			ps := dedup(append(append(append(patterns.ShapesOf("autoatomic", "endbacktrack", "alternation", "coalesce", "bumpalong", "opcodes", "landmark", "case"), systematicPats(tier, seed)...), mirrorPats(tier, seed, true)...), enumPats(tier, seed)...))
 			maxN := 4
-			sets := []int{0, patterns.OptI, patterns.OptM, patterns.OptS, patterns.OptRE2}
+			sets := []int{0, patterns.OptI, patterns.OptM, patterns.OptS, patterns.OptRE2, patterns.OptRTL}
 			if tier == "thorough" {
 				maxN = 5
 			}
 			var us []Unit
 			for i, p := range ps {
 				for k, o := range sets {
-					if tier != "thorough" && k != 0 && (k != 1+(i+seed)%4 || isSystematic(p)) {
+					if p.Source == "shape:succloop" && tier != "thorough" {
+						if !(o == patterns.OptRTL || k == 0 && (i+seed)%2 == 0) {
+							continue
+						}
+					} else if tier != "thorough" && k != 0 && (k != 1+(i+seed)%5 || isSystematic(p)) {
 						continue
 					}
 					us = append(us, unitsFor("C05", "rewrite", p, o, "", maxN, nil, false)...)
@@ -513,8 +535,8 @@ func init() {
 			}
 			return us
 		},
-		Rule:      "For each (IgnoreCase pattern, pattern variant with up to two literal letters / class members case-flipped, n): n symbolic runes restricted to caseless runes and plain upper/lower pairs, plus a symbolic flip vector f in {0,1}^n with t'[i] = f[i] ? partner(t[i]) : t[i]; all feasible paths; match position and length on t, on t' and for the flipped pattern on t are asserted equal.",
-		Witnesses: []string{"match", "nomatch", "end"},
+		Rule:      "For each (IgnoreCase pattern, pattern variant with up to two literal letters / class members case-flipped, n): n symbolic runes restricted to caseless runes and plain upper/lower pairs, plus a second text t' with t'[i] = t[i] or its case partner; all feasible paths; match position and length on t, on t' and for the flipped pattern on t are asserted equal; for programs with a raw-string prefix filter MatchString(string(t)) and MatchString(string(t')) are asserted equal to each other and to the rune result.",
+		Witnesses: []string{"match", "nomatch", "string-leg", "end"},
 	})
 }
 
@@ -522,7 +544,7 @@ func init() {
 	register(&propSpec{
 		ID: "C04",
 		Build: func(tier string, seed int) []Unit {
-			ps := dedup(append(append(patterns.ShapePats(), systematicPats(tier, seed)...), enumPats(tier, seed)...))
+			ps := dedup(append(append(append(patterns.ShapePats(), systematicPats(tier, seed)...), mirrorPats(tier, seed, true)...), enumPats(tier, seed)...))
 			maxN := 4
 			if tier == "thorough" {
 				maxN = 5
@@ -533,7 +555,11 @@ func init() {
 					o  int
 					co string
 				}{{0, ""}, {0, "g"}, {patterns.OptRTL, ""}, {patterns.OptI, ""}, {patterns.OptI, "g"}} {
-					if tier != "thorough" && k > 0 && ((i+seed)%4 != k-1 || (isSystematic(p) && k > 1)) {
+					if p.Source == "shape:succloop" && tier != "thorough" {
+						if !(cfg.o == patterns.OptRTL || k == 0 && (i+seed)%2 == 0) {
+							continue
+						}
+					} else if tier != "thorough" && k > 0 && ((i+seed)%4 != k-1 || (isSystematic(p) && k > 1)) {
 						continue
 					}
 					us = append(us, unitsFor("C04", "facts", p, cfg.o, cfg.co, maxN, nil, false)...)
